@@ -217,6 +217,7 @@ func runC01(c *Ctx) {
 	r.Floor("C01.floor.consumers", nDec, 2, "consumers of key/sig bytes")
 
 	// --- equation & k-hash
+	freshIdentity := false
 	for _, rc := range accepts {
 		t := b.Of(rc.Val, rc.Ret)
 		if ana.IsConstBool(rc.Val, true) {
@@ -241,6 +242,9 @@ func runC01(c *Ctx) {
 		}
 		r.OK("C01.equation.shape", pos(rc.Ret), "return value = Equal([8](X−Y), I)==1")
 		_, okI := ana.Match(patIdentity, bd["$I"])
+		if _, fresh := ana.Match("call<ed.NewIdentityPoint>", bd["$I"]); fresh {
+			okI, freshIdentity = true, true // constructed at the comparison: nothing shared to protect
+		}
 		r.Check(okI, "C01.equation.identity-operand", pos(rc.Ret), "comparison operand is the package's identity point: %s", short(bd["$I"].String(), 120))
 		x, y := bd["$X"], bd["$Y"]
 		if _, isR := ana.Match(patVTDSBM, x); !isR {
@@ -292,6 +296,8 @@ func runC01(c *Ctx) {
 			}
 		}
 		r.Check(writers == 1 && initOK, "C01.equation.identity-immutable", c.P.Pos(g.Pos()), "identity is written once, by its initialiser, with NewIdentityPoint() (writers=%d)", writers)
+	} else if freshIdentity {
+		r.OK("C01.equation.identity-immutable", "", "the identity operand is a fresh NewIdentityPoint() at the comparison; there is no shared identity variable")
 	} else {
 		r.Undec("C01.equation.identity-immutable", "", "package variable identity not found")
 	}
